@@ -19,19 +19,19 @@ CHECKS = {
     "C04": ("Hypothesis mutation generators + complete one-edit neighbourhoods + atheris coverage-guided fuzzing, reference-acceptor oracle",
             "Strings (valid vectors, 1-3 stacked mutations from 15 operators, cross-version vectors, arbitrary text, every one-edit neighbour of seed vectors, fuzzer-grown inputs) are classified by an independent reference acceptor; the constructor must accept exactly the grammar, raise the malformed/mandatory error of its version otherwise, and never leak a foreign exception.",
             "String space is unbounded: sampled, plus complete one-edit balls around sampled seeds. Reference acceptor and metric tables are typed from the specifications.", "4/C04"),
-    "C05": ("Hypothesis metamorphic test (permutation x Not-Defined toggles, whole-group shapes); permutations of every mutant / one-edit-ball member the constructor accepts",
+    "C05": ("Hypothesis metamorphic test (permutation x Not-Defined toggles, whole-group shapes); exhaustive sweep of every v2/v3 assignment of the mandatory metrics x every sub-group of optional metrics omitted vs Not Defined; permutations of every mutant / one-edit-ball member the constructor accepts",
             "Two spellings of the same metric assignment (seeded permutation; any subset / a single one of the Not Defined optionals toggled) must agree on scores, severities, cleaned/RH/sub-vectors, equality both ways and hash.",
             "Sampled over vectors and respellings; every optional metric is toggled in isolation many times per run (class counters in evidence).", "4/C05"),
-    "C06": ("Hypothesis metamorphic test over the five substitution clauses, self-validating pairs",
+    "C06": ("Hypothesis metamorphic test over the five substitution clauses, self-validating pairs; exhaustive sweep of every v2/v3 assignment of the mandatory metrics x whole sub-groups under clauses (a)/(b); the other 3.x minor version scored first in half of the v3 cases",
             "Accepted vector + a non-empty subset of eligible substitutions of one clause (a)-(e); the check re-derives eligibility from the two vectors and compares exactly the scores the clause constrains. Evidence asserts that every eligible metric of every clause was substituted.",
             "Sampled; equivalence tables typed from the statement.", "4/C06"),
-    "C07": ("Hypothesis single/pair/triple generators against a model key from the reference parser; copies (copy/deepcopy/pickle) and instances of a do-nothing subclass as further objects",
+    "C07": ("Hypothesis single/pair/triple generators against a model key from the reference parser; copies (copy/deepcopy/pickle), objects pickled in a child process with another hash seed, and instances of a do-nothing subclass as further objects",
             "clean_vector() content, prefix handling, re-parse round trip and idempotence; == iff (version incl. minor, defined metric map) equal; hash/observables of equal objects; reflexive/symmetric/transitive; never equal to foreign values; one consistent relative metric order across all outputs of the run.",
             "Sampled over vectors and pair kinds (respelling, one/several metrics changed, 3.0/3.1 twin, other version, independent).", "4/C07"),
-    "C08": ("Hypothesis + deterministic covering set + interactive answer scripts (Hypothesis and atheris) + library-accepted mutants and one-edit-ball members, emitted after prior accessor calls; official vectorString regexes as oracle",
+    "C08": ("Hypothesis + deterministic covering set + interactive answer scripts (Hypothesis and atheris) + library-accepted mutants and one-edit-ball members, emitted after prior accessor calls; the builder's version argument as any number; official vectorString regexes as oracle",
             "Every emitted string (cleaned vector, vector part of RH notation, builder result) is re-parsed by the library and matched (fullmatch) against the vectorString pattern of the pinned FIRST schema of its version; the covering set makes a one-metric ordering error visible regardless of seed.",
             "Official grammar = pattern of the pinned schemas; sampled over optional-metric subsets and answer scripts.", "4/C08"),
-    "C09": ("seeded quotient classes with oracle-selected witnesses for every reachable (slot, score value), pinned band table",
+    "C09": ("seeded quotient classes with oracle-selected witnesses for every reachable (slot, score value), every third after another object was rated and serialised, pinned band table",
             "For every (version, slot, score value) triple met by an oracle pre-pass a witness vector is pushed through the library: float format, range, None rule, severities() vs the official scale applied to the oracle score, CVSS4.severity and JSON severities agree.",
             "Score values judged against the exact oracles; severity strings compared case-insensitively across exposures.", "4/C09"),
     "C10": ("Hypothesis + covering set + seeded sweep of score-quotient classes + library-accepted mutants / ball members + objects from from_rh_vector, jsonschema validation against pinned FIRST schemas (Decimal-exact)",
@@ -40,7 +40,7 @@ CHECKS = {
     "C11": ("Hypothesis (incl. zero-score-biased generator) + covering set + seeded sweep of score-quotient classes against a model JSON document; library-accepted mutants; documents of copies (copy/deepcopy/pickle) and of from_rh_vector objects",
             "version/vectorString identify the input, every present score/severity equals oracle score/band, every metric field names the effective value (pinned value-name table), sort only orders keys, minimal output is a sub-dictionary that removes only whole undefined temporal/environmental groups.",
             "Value names from the FIRST schemas; v4 field names pinned from the pinned commit.", "4/C11"),
-    "C12": ("Hypothesis + atheris coverage-guided RH strings + deterministic sweep of all 101 scores and near-miss floats, float() as the definition of 'number', oracle base score",
+    "C12": ("Hypothesis + atheris coverage-guided RH strings + deterministic sweep of all 101 scores, near-miss floats and score texts below the resolution of a double (exact value of the text as oracle), rh_vector() after other accessor calls, oracle base score",
             "rh_vector() format and round trip; from_rh_vector accepts iff numeric score part, valid vector and exact equality with the oracle base score; error taxonomy (RH-malformed, mismatch, ordinary vector errors); only CVSSnError subclasses escape.",
             "Precedence between a bad score part and a bad vector part is not asserted.", "4/C12"),
     "C13": ("Hypothesis text generator (planted/near-valid/glued/repeated vectors, Unicode special delimiters) + deterministic delimiter sweep + atheris, reference acceptor as oracle",
@@ -55,13 +55,13 @@ CHECKS = {
     "C16": ("model-based Hypothesis test of the dialogue + covering set of every legal value + deterministic long-retry scripts + atheris coverage-guided answer scripts (dialogue model inside the target)",
             "Answer scripts (retries, junk, empty, case variants, truncation) are fed to the builder through a counting fake stdin; an independent dialogue model must consume the same number of answers and produce the same vector; the class must accept it; EOF surfaces as EOFError.",
             "Asking order taken from the returned vector (any order accepted); prompts are not asserted.", "4/C16"),
-    "C17": ("atheris coverage-guided command lines + Hypothesis-generated command lines (incl. POSIX cluster spellings), in-process main() with patched argv/stdin/stdout (return value = exit status) + real subprocess sample under both launchers, 26 child environments and working directories with a file named like the vector; API differential and dialogue model as oracle",
+    "C17": ("atheris coverage-guided command lines + Hypothesis-generated command lines (incl. POSIX cluster spellings), in-process main() with patched argv/stdin/stdout (return value = exit status) + real subprocess sample under both launchers, 26 child environments, every environment variable named in the tree under test set to a dozen values, and working directories with a file named like the vector; API differential and dialogue model as oracle",
             "For generated flag sets, vectors (valid, other-version, mutants, arbitrary text) and stdin scripts (complete / truncated): exit status 0, no exception or traceback, report lines parsed by label equal the API's scores, ratings, cleaned and RH vector, -j document equals as_json(sort=True, minimal=True) incl. key order, invalid vector -> the library's message, EOF -> clean end.",
             "Several version flags: any selected version accepted; empty VECTOR read as absent; layout, banners and v2 ratings not asserted.", "4/C17"),
-    "C18": ("Hypothesis RuleBasedStateMachine over accessor calls, dict mutations, comparisons with foreign types and continuation on copies, twin-object oracle; one object shared by 2-4 threads under a deterministic settrace scheduler with drawn schedules",
+    "C18": ("Hypothesis RuleBasedStateMachine over accessor calls, dict mutations, comparisons with foreign types and continuation on copies, twin-object oracle; one object shared by 2-4 threads under a deterministic settrace scheduler with drawn schedules; an equal object in another spelling and up to 1100 other objects used between two calls",
             "Sequences of accessor calls (all public accessors, every as_json option pair), ==/hash against a twin and mutations of returned dicts; every result must equal what a twin object returned when that accessor was its first call; nothing may raise. Second generator: one object shared by threads whose interleaving (line granularity) is drawn by Hypothesis.",
             "Only observable results compared; sequences up to 30 (quick) / 50 (thorough) steps.", "4/C18"),
-    "C19": ("Hypothesis stateful histories vs fresh interpreter processes + global-state snapshots (incl. before-import ambient state); deterministic settrace thread scheduler with drawn schedules (same or different jobs per thread, threads before the sequential reference); PYTHONHASHSEED sweep; decimal-context sweep vs exact oracles; ddmin with fresh-process judging for history-dependent failures",
+    "C19": ("Hypothesis stateful histories vs fresh interpreter processes + global-state snapshots (incl. before-import ambient state); deterministic settrace thread scheduler with drawn schedules (same or different jobs per thread, threads before the sequential reference, aperiodic tails), the same after cache pressure, and a priority (PCT-style) scheduler whose change points lie on lines that touch module-level mutable state; PYTHONHASHSEED sweep; decimal-context sweep vs exact oracles; ddmin with fresh-process judging for history-dependent failures",
             "Histories of API/CLI/interactive calls with a probe set and a deep snapshot of cvss.* module state, decimal context, sys.path and warnings.filters after every step, everything recomputed by a fresh process in another order; 2-4 threads under harness-owned line-level schedules plus a free-running stress; probe corpus under 5 hash seeds; 40 ambient decimal contexts (prec 28..200 x 8 rounding modes) against the exact oracles.",
             "Schedules at line granularity in cvss/*.py frames; decimal sticky flags excluded; lazy stdlib imports warmed up before the first snapshot.", "4/C19"),
     "C20": ("differential execution of a Hypothesis-generated corpus on all 9 installed interpreters + /venv via a py2/py3-common probe",
